@@ -172,6 +172,21 @@ def run_casper(ctx, timeout=6000):
     return out
 
 
+
+def run_sets(ctx, timeout=3000):
+    """ValidatorSets.tla (who may vote when the validator table changes between epochs): every transition replayed on
+    the real finality engine over a real store (cmd/c18 sets)."""
+    b = ctx.build("c18")
+    cfg = "cfg/ValidatorSetsGen.%s.cfg" % ("quick" if ctx.tier == "quick" else "thorough")
+    r = tlc_cached(ctx, "chain/ValidatorSetsGen", cfg, timeout=timeout, tag="validator-sets", workers=8)
+    h = replay_cached(ctx, b, [], r.path, timeout=timeout, verb="sets")
+    s = h["summary"]
+    if s.get("cases", 0) != r.nexports and not h["violations"]:
+        raise Infra("validator-set replay covered %s of %d exported paths" % (s.get("cases"), r.nexports))
+    return dict(tlc=[r], cases=s.get("cases", 0), calls=s.get("calls", 0), distinct=s.get("distinct", 0), samples=h["samples"][:1],
+                other=len(h["other"]), states=r.distinct, transitions=r.generated,
+                configs=[dict(cfg=os.path.basename(cfg), exported_paths=r.nexports, replayed=s.get("cases", 0), replay_cached=h["cached"])])
+
 # ledger family: (cfg, stride quick) per tier
 LEDGER_CFGS = {
     "quick": [("cfg/LedgerGen.quick.cfg", 8), ("cfg/LedgerGen.pool.quick.cfg", 4), ("cfg/LedgerGen.vote.quick.cfg", 24), ("cfg/LedgerGen.contract.quick.cfg", 96), ("cfg/LedgerGen.rules.quick.cfg", 2)],
